@@ -53,3 +53,31 @@ End Cfi.
 (* a walker with aliases: the register file is a function of the SLOT, [slot] maps names to slots *)
 Definition alias_step (slot : nat -> nat) (name : nat) (v : nat) (regs : nat -> option nat) : nat -> option nat :=
   fun r => if Nat.eqb r (slot name) then Some v else regs r.
+
+(* ---- the arm64 walker on top of [walk_cfi] (correspondence: Q cases).  Register names are byte strings; which names
+   exist and which are aliases comes from the source (Gen/C13Sites.v: REGISTERS and the alias arms of
+   CONTEXT_ARM64::memoize_register, CALLEE_SAVED_REGS of the arm64 unwinder).
+   CfiStackWalker: caller_ctx = callee's context, caller_validity = the callee-saved registers that are valid in the callee;
+   set_caller_register(name, v): memoize(name)? -> valid, value written; a failed rule or a rejected value:
+   clear_caller_register(name): memoize(name) -> not valid any more.  The register file is keyed by the memoized name. *)
+From RM Require Gen.C13Sites.
+Open Scope Z_scope.
+
+Definition a64_memoize (name : bytes) : option bytes :=
+  match find (fun e : bytes * bytes => bytes_eqb name (fst e)) RM.Gen.C13Sites.arm64_alias_bytes with
+  | Some e => Some (snd e)
+  | None => find (bytes_eqb name) RM.Gen.C13Sites.arm64_register_bytes
+  end.
+Definition a64_regs := bytes -> option Z.            (* memoized name -> value, if valid *)
+(* a rule: Some v = the expression evaluates to v; None = it fails *)
+Definition a64_step (name : bytes) (rule : option Z) (regs : a64_regs) : a64_regs :=
+  match a64_memoize name with
+  | None => regs
+  | Some r => fun x => if bytes_eqb x r then rule else regs x
+  end.
+(* [callee]: the callee's registers (all valid: frame 0) *)
+Definition a64_forwarded (callee : bytes -> Z) : a64_regs :=
+  fun x => if existsb (bytes_eqb x) RM.Gen.C13Sites.arm64_callee_saved_bytes then Some (callee x) else None.
+Definition a64_walk (iter : list (bytes * option Z) -> list (bytes * option Z)) (written : list (bytes * option Z))
+    (callee : bytes -> Z) : a64_regs :=
+  walk_cfi bytes_eqb bytes_ltb a64_step iter written (a64_forwarded callee).
